@@ -11,6 +11,10 @@ direct trainer and single-candidate optimiser run, on corpora whose segments hav
 Legacy trainer: table_full_ops (sample sets with more distinct, recurring, unmergeable segments than the candidate table has slots - 10000 / capacity/16 / nbSamples -:
 the table fills up and candidates displace its lowest-ranked entries; measured by the harness, tbl=pos/slots) and the function-level tie ZDICT_insertDictItem ==
 Train.insertAll on tables of 2..100 slots (dins; theorems table_insert_bounded / table_insert_ranked).
+Parameter validation of BOTH fastCover entry points (fparam_ops): f over {default, 1, 31, 32, 33, 39, 40, 63, 64, 65, 255, UINT_MAX} and accel over {default, 1, 10, 11, 255, UINT_MAX}, direct
+trainer and optimiser (fixed k / d, searched k / d, one and two threads), run with the sanitizer's allocator limited to 1 GiB per request so that an attempt to allocate the 2^f
+counters of an out-of-range f is an observed outcome (memory_allocation) instead of tens of GB: out-of-range values must be refused with parameter_outOfBound by both, and the verdict
+of each equals Train.fastCoverParamsOk.
 Function-level ties: COVER_computeEpochs == Train.computeEpochs, COVER_ctx_init / FASTCOVER_ctx_init == Train.ctxInit.  One shape is excluded (EXCLUDED in
 harness/zvh_train.c: optimiser, split < 1, training part below max(d,8) bytes - a crash of the unchanged tree); repaired in the tree by fix 3d7351b: the shape runs by default and must give an error code; ZV_C18_EXCLUDE=1 restores the exclusion."""
 import os, re
@@ -238,6 +242,28 @@ def ctx_ops(rng, quick):
     return ops
 
 
+F_VALUES = [0, 1, 31, 32, 33, 39, 40, 63, 64, 65, 255, (1 << 32) - 1]
+ACCEL_VALUES = [0, 1, 10, 11, 255, (1 << 32) - 1]
+F_ALLOC_LIMIT_MB = 1024
+
+
+def fparam_ops(rng, quick):
+    """f and accel at, around and far beyond their bounds (FASTCOVER_MAX_F = 31, FASTCOVER_MAX_ACCEL = 10; 0 = default) through ZDICT_trainFromBuffer_fastCover AND
+    ZDICT_optimizeTrainFromBuffer_fastCover, everything else valid (k = 64, d = 8 on 40 text samples, capacity 4096; the optimiser also with k / d searched and with two
+    threads).  f = 64 / 65 are the values whose 1 << f wraps on x86-64, 32..63 the ones that size a table of 16 GiB and more."""
+    ops = []
+    seed = rng.randrange(1 << 30)
+    for algo in ("fastcover", "optfast"):
+        for f in F_VALUES:
+            ops.append(_op(algo, 4096, 64, 8, f, 1, 1, 100 if algo == "fastcover" else rng.choice([75, 100]), 0, 1, "text:40:300", seed))
+        for accel in ACCEL_VALUES:
+            ops.append(_op(algo, 4096, 64, 8, 12, accel, 1, 100, 0, 1, "text:40:300", seed))
+    for f in (32, 40, 64, 65, (1 << 32) - 1) if quick else F_VALUES:
+        ops.append(_op("optfast", 4096, 0, 0, f, 1, 2, 75, 0, 1, "text:40:300", seed))            # k and d searched
+        ops.append(_op("optfast", 4096, 64, 8, f, 1, 1, 75, 0, 2, "text:40:300", seed))           # worker threads
+    return ops
+
+
 def run_each(exe, ops, timeout=900, env=None):
     def work(chunk):
         res = []
@@ -370,6 +396,38 @@ def correspondence(ctx):
             stats["holders"] += 1
         else:
             ctx.violation("the optimiser's result-holder events are not a path of the protocol model: %s -> %s" % (op, v), dict(kind="tie-best-protocol", op=op, verdict=v), no_input=True)
+    # ---- f / accel validation of both fastCover entry points, allocator limited (an out-of-range f must be refused BEFORE anything is sized by it) ----
+    fp_ops = fparam_ops(rng, quick)
+    fp_env = dict(os.environ, ASAN_OPTIONS=":".join(x for x in (os.environ.get("ASAN_OPTIONS", ""), "allocator_may_return_null=1", "max_allocation_size_mb=%d" % F_ALLOC_LIMIT_MB) if x))
+    fp_lines, fp_meta = [], []
+    for op, (o, crash) in zip(fp_ops, run_each(hx("san"), fp_ops, timeout=300, env=fp_env)):
+        w = op.split(); algo, cap, k, d, f, accel = w[1], int(w[2]), int(w[3]), int(w[4]), int(w[5]), int(w[6])
+        entry = "ZDICT_trainFromBuffer_fastCover" if algo == "fastcover" else "ZDICT_optimizeTrainFromBuffer_fastCover"
+        stats["fparam_runs"] = stats.get("fparam_runs", 0) + 1
+        if crash is not None or o is None or o.startswith("res=HANG"):
+            ctx.violation("%s with f=%d accel=%d crashed / sanitizer report / hang: %s -> %s" % (entry, f, accel, op, (crash or o)[:400] + " ... " + (crash or o)[-300:]), dict(kind="monitor", op=op, stderr=crash or o, asan_options=fp_env["ASAN_OPTIONS"]))
+            continue
+        m = re.match(r"res=(\S+) ", o)
+        r = m.group(1) if m else "unparsable"
+        fe, ae = (f if f else 20), (accel if accel else 1)
+        flagged = False
+        if fe > 31 or ae > 10:
+            if r != "err:parameter_outOfBound":
+                flagged = True
+                ctx.violation("%s accepts / mishandles an out-of-range parameter (f=%d, accel=%d; bounds 31 and 10): answered %s%s: %s" % (
+                    entry, f, accel, r, " (it tried to allocate the 2^f counters: refused by the %d MiB allocator limit of this run)" % F_ALLOC_LIMIT_MB if r == "err:memory_allocation" else "", op),
+                    dict(kind="monitor", op=op, result=o[:300], asan_options=fp_env["ASAN_OPTIONS"]))
+        elif not (r.startswith("ok:") or (r == "err:memory_allocation" and (4 << fe) >= (F_ALLOC_LIMIT_MB << 20))):
+            ctx.violation("%s refuses valid parameters (f=%d, accel=%d, k=%d, d=%d): %s: %s" % (entry, f, accel, k, d, r, op), dict(kind="monitor", op=op, result=o[:300]))
+        if " det=DIFF " in o:
+            ctx.violation("single-threaded training is not deterministic: %s" % op, dict(kind="monitor", op=op, result=o[:300]))
+        if k and d and not flagged:
+            fp_lines.append("fparams %d %d 100 100 %d %d %d" % (k, d, cap, fe, ae)); fp_meta.append((op, r, entry))
+    for (op, r, entry), v in zip(fp_meta, drv("train", fp_lines)):
+        stats["param_ties"] += 1
+        bad = (v.strip() == "0")
+        if bad != (r == "err:parameter_outOfBound"):
+            ctx.violation("parameter check of %s: model says %s, trainer answered %s: %s" % (entry, "invalid" if bad else "valid", r, op), dict(kind="tie-params", op=op), no_input=True)
     # ---- function-level tie: ZDICT_insertDictItem (no merge) == Train.insertAll; sanitizer build, table block of exactly maxSize slots ----
     d_ops = dins_ops(rng, quick)
     d_bad = 0
@@ -424,8 +482,8 @@ def correspondence(ctx):
     if stats["grown_directed"] == 0:
         ctx.notes.append("none of the %d size-varying optimiser runs made the result holder grow its buffer: the directed family no longer reaches that case" % len(sv_ops))
     return dict(legacy_table_full_directed_runs=len(tf_ops), legacy_table_full_runs=stats["table_full"], legacy_table_full_runs_directed=stats["table_full_directed"], legacy_table_best_fill=stats["table_max_fill"], dict_item_table_ties=stats.get("dins_ties", 0),
-                excluded_known_crash_shape=stats["excluded"], size_varying_runs=len(sv_ops), holder_buffer_regrowths=stats["grown"], holder_buffer_regrowths_directed=stats["grown_directed"], remainder_sweep_runs=len(rm_ops), tiny_training_part_runs=len(tt_ops), epochs_ties=stats.get('epoch_ties', 0), ctx_init_ties=stats.get('ctx_ties', 0),
-                evaluations=len(ops) + len(tops) + len(e_ops) + len(c_ops) + len(d_ops), distinct_nontrivial=len(set(ops)) + len(set(e_ops)) + len(set(c_ops)) + len(set(d_ops)),
+                excluded_known_crash_shape=stats["excluded"], fastcover_f_accel_validation_runs=stats.get("fparam_runs", 0), size_varying_runs=len(sv_ops), holder_buffer_regrowths=stats["grown"], holder_buffer_regrowths_directed=stats["grown_directed"], remainder_sweep_runs=len(rm_ops), tiny_training_part_runs=len(tt_ops), epochs_ties=stats.get('epoch_ties', 0), ctx_init_ties=stats.get('ctx_ties', 0),
+                evaluations=len(ops) + len(tops) + len(e_ops) + len(c_ops) + len(d_ops) + len(fp_ops), distinct_nontrivial=len(set(ops)) + len(set(e_ops)) + len(set(c_ops)) + len(set(d_ops)) + len(set(fp_ops)),
                 rule="one evaluation = one training call (x2 when single-threaded, for determinism) on a generated sample set; distinct = distinct op lines",
                 samples=[dict(op=ops[0], result=(res[0][0] or "")[:200])], outcomes=dict(ok=stats["ok"], error=stats["err"], zero=stats["zero"]),
                 result_holder_traces_accepted=stats["holders"], finalize_layout_ties=stats["finalize_ties"], id_rule_ties=stats["id_ties"], parameter_verdict_ties=stats["param_ties"], lean_loader_checks=len(loads), tsan_runs=len(tops))
@@ -433,8 +491,12 @@ def correspondence(ctx):
 
 def replay(ctx, data):
     op = data["op"]
-    res = run_each(hx(data.get("variant", "san")), [op])
+    env = dict(os.environ, ASAN_OPTIONS=data["asan_options"]) if data.get("asan_options") else None
+    res = run_each(hx(data.get("variant", "san")), [op], env=env)
     o, crash = res[0]
+    if data.get("asan_options") and crash is None:
+        w = op.split(); bad = (int(w[5]) or 20) > 31 or (int(w[6]) or 1) > 10
+        return dict(violates=bad and not (o or "").startswith("res=err:parameter_outOfBound "), result=(o or "")[:400])
     if op.startswith("dins ") and crash is None:
         rc, out, err = zv.run([zv.driver_exe(), "train"], op + "\n", timeout=300)
         return dict(violates=(o or "").strip() != out.strip(), result=(o or "")[:400], model=out.strip()[:400])
